@@ -221,8 +221,8 @@ class CoreTask:
                    "kind": ob.kind, "status": ob.status, "solver": ob.solver, "time_s": round(ob.time_s, 3), "note": ob.note}
             if ob.status == "unknown":
                 rec["reason"] = ob.reason
-            if ob.status == "failed" and ob.model is not None:
-                rec["model"] = ob.inputs_from_model(ob.model) if hasattr(ob, "inputs_from_model") else None
+            if ob.status == "failed" and getattr(ob, "model_inputs", None) is not None:
+                rec["model"] = ob.model_inputs
             res["obligations"].append(rec)
         res["feas_calls"] = ctx.feas_calls
         seen = {}
